@@ -165,7 +165,7 @@ Fixpoint nodupb (l : list string) : bool :=
   match l with [] => true | x :: r => andb (negb (mem x r)) (nodupb r) end.
 
 (* an observable symbol table: name -> (mutable?, deep value) *)
-Definition row := (bool * dv)%type.
+Notation row := (bool * dv)%type (only parsing).
 Definition tab := list (string * row).
 
 Definition row_eqb (a b : row) : bool := andb (Bool.eqb (fst a) (fst b)) (dv_eqb (snd a) (snd b)).
@@ -260,7 +260,7 @@ Inductive value :=
 (* how a name came to hold its value: which sharing construct (if any) created it *)
 Inductive birth := BFresh | BDefVar | BLitVar | BDestr.
 
-Definition entry := (bool * value * birth)%type.
+Notation entry := (bool * value * birth)%type (only parsing).
 Record store := { cells : list (nat * dv); names : list (string * entry); next : nat }.
 Definition store0 : store := {| cells := []; names := []; next := 0 |}.
 
